@@ -6,8 +6,10 @@ data' (DESIGN 4/C15).  Decides:
      replay that rebuilds the data from the WAL also advances `last_applied_index` from the records it
      replayed - otherwise the reported applied index is lower than the data and Raft re-applies entries
      the data already contains;
- (c) checkpoint ordering: wherever the WAL is cleared together with a data/metadata persist, the clear is
-     dominated by both persists;
+ (c) EVERY place that empties the WAL is dominated by a persist of the data and of the applied index in the same
+     function (or wipes the data files too, as reset does): the WAL is the only durable copy of what was applied
+     since the last checkpoint;
+ (e) in apply_chunk the advance of last_applied precedes everything that persists the metadata (checkpoint);
  (d) restart: `NodeBuilder::build` seeds the state-machine handler and the initial role from
      `StateMachine::last_applied()`.
 Necessary conditions, not the whole crash behaviour (torn writes inside one file are not decided)."""
@@ -89,22 +91,53 @@ def run(ctx):
     ctx.floor("C15-b", n_wal, 1, "WAL-replaying state machines")
 
     # ---------------------------------------------------------------- C15-c clear WAL only after data + metadata are persisted
+    # EVERY place that empties the WAL: the WAL is the only durable copy of what was applied since the last checkpoint, so
+    # emptying it is allowed only after both the data and the applied index were persisted in the same function, or together
+    # with the data itself (reset: the data and metadata files are cleared too)
     n_c = 0
     for root in [b for b in F.bodies.values() if b.parent is None and b.self_ty and strip_generics(b.self_ty).endswith("FileStateMachine")]:
+        if re.search(r"::clear_wal(_async)?$", strip_generics(root.id)):
+            continue
         for b in real_bodies(F, root):
             clears = calls_matching(b, r"FileStateMachine::clear_wal(_async)?$")
-            pdata = [x for x, _ in calls_matching(b, r"FileStateMachine::persist_data(_async)?$")]
-            pmeta = [x for x, _ in calls_matching(b, r"FileStateMachine::persist_metadata(_async)?$")]
-            if not clears or not (pdata or pmeta):
+            if not clears:
                 continue
+            pdata = [x for x, t in b.calls() if F.call_reaches(t, lambda k: re.search(r"FileStateMachine::persist_data(_async)?$", strip_generics(k)) is not None, 2)]
+            pmeta = [x for x, t in b.calls() if F.call_reaches(t, lambda k: re.search(r"FileStateMachine::persist_metadata(_async)?$", strip_generics(k)) is not None, 2)]
+            wipes = [x for x, _ in calls_matching(b, r"FileStateMachine::clear_data_file$")] and [x for x, _ in calls_matching(b, r"FileStateMachine::clear_metadata_file$")]
             for (ci, _t) in clears:
                 n_c += 1
-                ok = any(b.dominates(x, ci) for x in pdata) and any(b.dominates(x, ci) for x in pmeta)
-                ctx.check("C15-c", "%s#clear_wal-after-persist" % fkey(root), ok, "clear_wal is dominated by persist_data and persist_metadata",
-                          "the WAL is cleared on a path where the data or the applied index has not been persisted first: a crash between the clear "
-                          "and the missing persist leaves data and applied index out of step with nothing left to replay (metadata ahead of "
-                          "data: entries lost; data ahead of metadata: entries re-applied)", loc(b, ci))
-    ctx.floor("C15-c", n_c, 2, "clear_wal sites paired with persists (checkpoint, apply_snapshot_from_file)")
+                ok = (any(b.dominates(x, ci) for x in pdata) and any(b.dominates(x, ci) for x in pmeta)) or bool(wipes)
+                ctx.check("C15-c", "%s#clear_wal-after-persist" % fkey(root), ok, "clear_wal is dominated by persist_data and persist_metadata (or wipes the data too)",
+                          "the WAL is cleared on a path where the data or the applied index has not been persisted first: the cleared records are the only durable copy of the "
+                          "entries applied since the last checkpoint. History (two crashes): entries 1..3 are applied (WAL only) and the process is killed; on restart the WAL is "
+                          "replayed into memory and emptied without a checkpoint; entry 4 is applied (WAL = [4]); the process is killed again: the next start loads the old "
+                          "checkpoint (without 1..3), replays [4] and reports last_applied = 4 - entries 1..3 are applied zero times", loc(b, ci))
+    ctx.floor("C15-c", n_c, 3, "clear_wal sites (checkpoint, apply_snapshot_from_file, replay_wal, reset)")
+
+    # ---------------------------------------------------------------- C15-e a checkpoint persists the applied index of the data it persists
+    # in a function that advances last_applied for the entries it has just put into the data (apply_chunk), the advance comes BEFORE
+    # anything that persists the metadata: persist_metadata reads the last_applied atomics, a checkpoint taken first writes the new
+    # data with the previous chunk's index and then clears the WAL, the only other carrier of the indexes
+    n_e = 0
+    for root in trait_impls(F, SM_TRAIT + "apply_chunk"):
+        for b in real_bodies(F, root):
+            ups = [x for x, t in b.calls() if re.search(r"::update_last_applied$", strip_generics(callee_key(t) or ""))
+                   or (re.search(r"atomic::Atomic\w*::(store|fetch_max|swap)$", strip_generics(callee_key(t) or "")) and t["args"]
+                       and Slice(F, b).operand(t["args"][0]).has_field("", "last_applied_index"))]
+            pers = [x for x, t in b.calls() if F.call_reaches(t, lambda k: re.search(r"::(persist_metadata(_async)?|persist_last_applied\w*|checkpoint)$", strip_generics(k)) is not None, 2)]
+            if not ups or not pers:
+                continue
+            for pi in pers:
+                n_e += 1
+                seen, _p = b.reach_from(pi)
+                late = [u for u in ups if u in seen and u != pi and not b.dominates(u, pi)]
+                ctx.check("C15-e", "%s#applied-index-advanced-before-metadata-persist" % fkey(root), not late,
+                          "last_applied is advanced before the metadata / checkpoint is persisted",
+                          "apply_chunk persists the metadata (checkpoint) BEFORE it advances last_applied (%s): the checkpoint stores the chunk's data with the previous chunk's "
+                          "applied index and clears the WAL; after a kill the node reports an index below its data and Raft re-applies the chunk (CAS re-evaluated, TTLs renewed)"
+                          % [loc(b, u) for u in late], loc(b, pi))
+    ctx.floor("C15-e", n_e, 1, "metadata-persisting calls in apply_chunk impls that also advance last_applied")
 
     # ---------------------------------------------------------------- C15-d restart seeds from last_applied()
     build = ctx.anchor(F.method, "NodeBuilder", "build")
